@@ -389,6 +389,7 @@ class Stack(Factory, Container):
             isinstance(other, Stack)
             and numeq(self.entries, other.entries)
             and self.quantity == other.quantity
+            and len(self.bins) == len(other.bins)
             and all(numeq(c1, c2) and v1 == v2 for (c1, v1), (c2, v2) in zip(self.bins, other.bins))
             and self.nanflow == other.nanflow
         )
